@@ -300,7 +300,7 @@ def check_range(chk, repo):
         class _R:      # the three methods with self.args[k] folded back into the accessor names
             @staticmethod
             def method(rel_, cname_, mname):
-                f_ = copy.deepcopy(_method(rel_, cname_, mname))
+                f_ = copy.deepcopy(repo.resolve_method(cname_, mname)[2])      # own or inherited (mixin)
                 f_ = ast.fix_missing_locations(_FoldArgs(table).visit(f_))
                 return f_
         repo_ = _R
